@@ -24,6 +24,12 @@ CLAIMED = {
   text="Decides structural clauses that are necessary for the compound rules, for every dynamic type of the first and of later members and every SDES item type 0..8: which first-member types pass (FIRST), the per-member outcome of the scan incl. which member types let the scan continue, that success is controlled by a monotone flag set only under item.Type==SDESCNAME, that the scan loop carries no other state (SCAN), that Marshal produces bytes only after Validate()==nil and Unmarshal returns nil only as Validate() of the list it just stored and loops until the datagram is empty (GATE), that CNAME() returns the Text of the item just compared equal to SDESCNAME from inside the scan (CNAME). It does not decide grammar equivalence for all sequences (that would be a runtime enumeration); a reader should take it as: the decision structure is the RFC one, not that every sequence was tried.",
   note="Trusted: go/ssa, checker/pe evaluator. Not covered: CNAME()'s loop-carried err variable; DestinationSSRC/MarshalSize aggregation (C10/C05).",
   design="DESIGN.md §2 C11"),
+ "C10": dict(
+  level="other",
+  technique="static analysis: sequence-provenance abstraction of each DestinationSSRC result on go/ssa (segments One/Map/FlatCall/Call with symbolic positions), compared with a table from the property text",
+  text="For each of the 24 DestinationSSRC methods (16 packet types, 8 XR block types) the returned slice is abstracted on the SSA to a concatenation of segments whose element provenance, order, positions and total length are checked symbolically for every list length at once, and compared with the table written from the property statement. Decides: which SSRC fields appear, in which order, exactly once each, with no gap/overlap and a result length equal to the elements written. An implementation outside the recognised idioms fails as undecided (accepted risk, stated in DESIGN.md). Does not decide the 'same after a round trip' clause (runtime equality; C02).",
+  note="Trusted: go/ssa, the spec table c10Spec, struct field names as anchors.",
+  design="DESIGN.md §2 C10"),
 }
 
 NA = {
